@@ -107,6 +107,7 @@ def registry():
         for n in ops[d]:
             ops[d][n].sort(key=lambda e: e["since"])
         ops[d]["NoSuchOp"] = []
+    _cross_domain_probes(ops)
     maxver = {d: max(e["since"] for n in ops[d] for e in ops[d][n]) for d in ops}
     maxver["onnx"] = max(maxver["onnx"], int(onnx.defs.onnx_opset_version()))
     return {"maxver": maxver, "probe": {d: sorted(ops[d]) for d in ops}, "ops": ops}
@@ -152,6 +153,7 @@ def witness_registry(reg):
     ops = {d: {n: reg["ops"][d][n] for (dd, n) in picks if dd == d} for d in reg["ops"]}
     for d in ops:
         ops[d]["NoSuchOp"] = []
+    _cross_domain_probes(ops)
     return {"maxver": reg["maxver"], "probe": {d: sorted(ops[d]) for d in ops}, "ops": ops}
 
 
@@ -372,6 +374,18 @@ class Real:
         return {"item": guarded(lambda: ident(o[name])), "contains": guarded(lambda: bool(name in o)),
                 "getattr": guarded(via_getattr),
                 "translation": guarded(lambda: ident(self.values.Op(o, name)))}       # converter._translate_callee_expr
+
+
+def _cross_domain_probes(ops, cap=24):
+    """An operator name of ANOTHER domain is looked up in each opset too (it resolves to nothing there): version
+    numbers of different domains coincide (ai.onnx.ml 1-5, preview 1, ai.onnx 1-5), names must not leak across them."""
+    names = {d: sorted(n for n in ops[d] if ops[d][n]) for d in ops}
+    for d in ops:
+        for other in ops:
+            if other == d:
+                continue
+            for n in names[other][:cap]:
+                ops[d].setdefault(n, [])
 
 
 # ------------------------------------------------------------------ part 1: lookup (static vs ONNX vs dynamic)
